@@ -57,7 +57,7 @@ ASSUMPTIONS = [
     "n >= 10 nodes are not explored",
 ]
 
-STRIDE_N4 = 23
+STRIDE_N4 = 46
 
 
 # --------------------------------------------------------------------------- graph part
@@ -474,5 +474,5 @@ def run(ctx):
         ctx.extra["exhaustive_n_le_3"] = False
     done_4 = ctx.enumerate("graph", n4_payloads(ctx), case_graph)
     ctx.extra["exhaustive_n_eq_4"] = bool(done_4 and ctx.tier == "thorough" and not ctx.extra.get("exhaustive_interrupted"))
-    ctx.drive("graph_random", random_graphs(), case_graph, quick=400, thorough=4000)
-    ctx.drive("composition", systems(), case_composition, quick=350, thorough=2500)
+    ctx.drive("graph_random", random_graphs(), case_graph, quick=250, thorough=4000)
+    ctx.drive("composition", systems(), case_composition, quick=250, thorough=2500)
